@@ -7,6 +7,11 @@
    spec -> impl: every "done" state is replayed into the REAL helpers of
    resonaate.physics.maths (wrapAngle2Pi, wrapAngleNegPiPi, residual, residuals,
    vecWrapAngle2Pi, vecWrapAngleNeg, vecResiduals, angularMean); ticks -> radians.
+   Every posed weighted list is replayed a second time as a TIGHT CLUSTER (offsets shrunk to 1e-9 rad,
+   straddling the seam at ticks 0 and 12) with the spec's weights and with weights of huge
+   cancellation (2-norm-normalised resultant ~1e-9, as for sigma-point weights of alpha <= 1e-4):
+   the mean is defined whenever the resultant is not zero; its direction is computed without
+   cancellation in the frame rotated to the centre.
 2. spec/ObsGroup.tla (TLC): behaviours of the symmetry group (AddTurns, MoveSeam, Reexpress,
    Remodel, Permute - all 24 orders) on a stack of four mixed observations; the action
    property GroupKeepsPosterior is checked on every transition.
@@ -18,6 +23,10 @@
    Behaviours with Continue are SEQUENCES of updates of one filter instance (group actions or a
    relayout of equal total dimension in between, range innovations of several km, seam azimuths):
    the instance's result must equal that of a fresh instance fed the same prior and stack.
+   Stacks include four sensors of ONE sensor type with different R (and different dimensions);
+   tunings include alpha = 1e-4 and 1e-5 (centre weight -2e8 / -2e10).
+   Every call into the real code is guarded: an exception on a legal call is a violation
+   ("<helper>-raises:<Exc>", "ukf-update-raises:<Exc>"), also inside the worker processes.
 3. Spec mutants: the two as-coded deviations of Angles.tla must be refuted by TLC.
 """
 from __future__ import annotations
@@ -39,6 +48,7 @@ TOL = 1e-9
 TOL_PERM = 1e-7
 PHASES = (0.0, 1.0e-3, -2.5e-7)          # common sub-tick offsets (relation: rotation equivariance)
 EPS = float(np.finfo(float).eps)
+MICRO = 1.0e-9                           # rad per offset unit of the tight-cluster replay of the mean machine
 
 RES_MUTANT_CFG = """SPECIFICATION SpecRes
 CONSTANTS Algs = {"vec"} VecReduceAsCoded = %s VecRecentreAsCoded = %s
@@ -76,7 +86,13 @@ class HelperReplay:
         """`exact` is the exact wrap of the actual float input; `direct` says that every intermediate
         operation of the helper is exact for this input (then an input on the seam is decided by the
         documented range); otherwise results within 1e-9 of a seam are accepted on either side."""
-        r = float(r)
+        if r is None:
+            return          # the helper raised: already reported by call()
+        try:
+            r = float(r)
+        except Exception as ex:  # noqa: BLE001
+            self.ctx.violation(f"{func}-output-unusable:{type(ex).__name__}", f"{func} returned {r!r}", inp)
+            return
         e = float(exact)
         on_seam = exact == (A.F_PI if lo_open else 0)
         if not (lo - TOL <= r <= hi + TOL):
@@ -102,6 +118,15 @@ class HelperReplay:
             self.ctx.violation(f"{func}-out-of-range", f"{func} returned {r!r} outside its documented range",
                                dict(inp, got=r, exact=e))
 
+    def call(self, name: str, inp: dict, *args, **kw):
+        """Call a REAL helper; an exception on a legal input is a finding, never a driver crash."""
+        try:
+            return getattr(self.m, name)(*args, **kw)
+        except Exception as ex:  # noqa: BLE001
+            self.ctx.violation(f"{name}-raises:{type(ex).__name__}", f"{name} raised {type(ex).__name__}: {ex} on a legal input",
+                               dict(inp, exception=repr(ex)))
+            return None
+
     def _fr(self, x: float) -> Fraction:
         f = self._frac.get(x)
         if f is None:
@@ -122,20 +147,20 @@ class HelperReplay:
                 raise tlc.MachineryError(f"oracles disagree on wrap of {ra} ticks: spec {w1},{wn}, exact {float(e2)},{float(en)}")
             inp = {"ticks": ra, "phase": ph, "x": x}
             if alg == "scalar":
-                r2 = m.wrapAngle2Pi(x)
+                r2 = self.call("wrapAngle2Pi", inp, x)
                 self.check("wrapAngle2Pi", r2, e2, 0.0, A.TWOPI, False, True, inp)
-                rn = m.wrapAngleNegPiPi(x)
+                rn = self.call("wrapAngleNegPiPi", inp, x)
                 self.check("wrapAngleNegPiPi", rn, en, -A.PI, A.PI, True, True, inp)
                 # idempotence on the implementation's own output
                 for f, r in (("wrapAngle2Pi", r2), ("wrapAngleNegPiPi", rn)):
-                    rr = getattr(m, f)(float(r))
-                    if abs(float(rr) - float(r)) > TOL:
+                    rr = None if r is None else self.call(f, inp, float(r))
+                    if rr is not None and abs(float(rr) - float(r)) > TOL:
                         self.ctx.violation(f"{f}-not-idempotent", f"{f}({f}(x)) = {float(rr)!r} but {f}(x) = {float(r)!r}", inp)
             else:
-                r2 = m.vecWrapAngle2Pi(np.array([x, x]))[1]
-                self.check("vecWrapAngle2Pi", r2, e2, 0.0, A.TWOPI, False, True, inp)
-                rn = m.vecWrapAngleNeg(np.array([x, x]))[0]
-                self.check("vecWrapAngleNeg", rn, en, -A.PI, A.PI, True, True, inp)
+                r2 = self.call("vecWrapAngle2Pi", inp, np.array([x, x]))
+                self.check("vecWrapAngle2Pi", None if r2 is None else r2[1], e2, 0.0, A.TWOPI, False, True, inp)
+                rn = self.call("vecWrapAngleNeg", inp, np.array([x, x]))
+                self.check("vecWrapAngleNeg", None if rn is None else rn[0], en, -A.PI, A.PI, True, True, inp)
             self.ctx.case(("wrap", alg, ra, ph), nontrivial=True)
             self.n += 1
 
@@ -164,28 +189,35 @@ class HelperReplay:
             ex, eyx, dr = ok
             inp = {"a_ticks": ra, "b_ticks": rb, "phase": ph, "x": x, "y": y, "spec_residual_ticks": st["res"]}
             if alg == "scalar":
-                self.check("residual", m.residual(x, y, True), ex, -A.PI, A.PI, True, dr, inp)
-                self.check("residual", m.residual(y, x, True), eyx, -A.PI, A.PI, True, dr, dict(inp, swapped=True))
-                lin = float(m.residual(x, y, False))
-                if lin != x - y:
+                self.check("residual", self.call("residual", inp, x, y, True), ex, -A.PI, A.PI, True, dr, inp)
+                self.check("residual", self.call("residual", inp, y, x, True), eyx, -A.PI, A.PI, True, dr, dict(inp, swapped=True))
+                lin = self.call("residual", inp, x, y, False)
+                if lin is not None and float(lin) != x - y:
                     self.ctx.violation("residual-linear", "non-angular residual is not the plain difference", inp)
-                vec = m.residuals(np.array([x, x, y]), np.array([y, y, x]), np.array([True, False, True]))
-                self.check("residuals", vec[0], ex, -A.PI, A.PI, True, dr, inp)
-                self.check("residuals", vec[2], eyx, -A.PI, A.PI, True, dr, dict(inp, swapped=True))
-                if float(vec[1]) != x - y:
-                    self.ctx.violation("residuals-flag-order", "residuals() wrapped a component flagged non-angular", inp)
+                vec = self.call("residuals", inp, np.array([x, x, y]), np.array([y, y, x]), np.array([True, False, True]))
+                if vec is not None and np.shape(vec) != (3,):
+                    self.ctx.violation("residuals-output-unusable:shape", f"residuals() returned shape {np.shape(vec)}", inp)
+                    vec = None
+                if vec is not None:
+                    self.check("residuals", vec[0], ex, -A.PI, A.PI, True, dr, inp)
+                    self.check("residuals", vec[2], eyx, -A.PI, A.PI, True, dr, dict(inp, swapped=True))
+                    if float(vec[1]) != x - y:
+                        self.ctx.violation("residuals-flag-order", "residuals() wrapped a component flagged non-angular", inp)
             else:
                 # shapes of genetic_particle_filter: (M x P) predicted, (M x 1) observed, (M x 1) flags
                 pop = np.array([[x, y], [x, y], [y, x]])
                 obs = np.array([[y], [y], [x]])
                 flags = np.array([[True], [False], [True]])
-                out = m.vecResiduals(pop, obs, flags)
-                self.check("vecResiduals", out[0, 0], ex, -A.PI, A.PI, True, dr, inp)
-                self.check("vecResiduals", out[2, 0], eyx, -A.PI, A.PI, True, dr, dict(inp, swapped=True))
-                if float(out[1, 0]) != x - y or float(out[1, 1]) != y - y:
-                    self.ctx.violation("vecResiduals-flag-order", "vecResiduals wrapped a component flagged non-angular", inp)
-                zero = Fraction(0)
-                self.check("vecResiduals", out[0, 1], zero, -A.PI, A.PI, True, True, dict(inp, same=True))
+                out = self.call("vecResiduals", inp, pop, obs, flags)
+                if out is not None and np.shape(out) != (3, 2):
+                    self.ctx.violation("vecResiduals-output-unusable:shape", f"vecResiduals returned shape {np.shape(out)}", inp)
+                    out = None
+                if out is not None:
+                    self.check("vecResiduals", out[0, 0], ex, -A.PI, A.PI, True, dr, inp)
+                    self.check("vecResiduals", out[2, 0], eyx, -A.PI, A.PI, True, dr, dict(inp, swapped=True))
+                    if float(out[1, 0]) != x - y or float(out[1, 1]) != y - y:
+                        self.ctx.violation("vecResiduals-flag-order", "vecResiduals wrapped a component flagged non-angular", inp)
+                    self.check("vecResiduals", out[0, 1], Fraction(0), -A.PI, A.PI, True, True, dict(inp, same=True))
             self.ctx.case(("res", alg, ra, rb, ph), nontrivial=ra != rb,
                           sample=dict(inp, alg=alg) if (ra, rb, ph) in (((A.N // 2), 0, 0.0), (47, -30, 0.0)) else None)
             self.n += 1
@@ -212,9 +244,13 @@ class HelperReplay:
                 calls.append(("unweighted", None))
             for low, high in ((0.0, A.TWOPI), (-A.PI, A.PI)):
                 for how, ww in calls:
-                    r = float(m.angularMean(ang, weights=ww, low=low, high=high))
                     inp = {"ticks": vals, "weights": w, "phase": ph, "low": low, "high": high, "call": how,
-                           "spec_mean": [st["kind"], st["m"]], "got": r}
+                           "spec_mean": [st["kind"], st["m"]]}
+                    r = self.call("angularMean", inp, ang, weights=ww, low=low, high=high)
+                    if r is None:
+                        continue
+                    r = float(r)
+                    inp["got"] = r
                     if not (low - TOL <= r <= high + TOL):
                         self.ctx.violation("angularMean-out-of-range", f"angularMean returned {r!r} outside [{low}, {high})", inp)
                     elif st["kind"] == "tick":
@@ -225,10 +261,59 @@ class HelperReplay:
                         if abs(math.remainder(r - mid, A.TWOPI)) > A.TAU / 2 + tol:
                             self.ctx.violation("angularMean-sector", f"angularMean returned {r!r}, exact mean lies between ticks {st['m']} and {st['m'] + 1}", inp)
             self.n += 1
+        if "off" in st and len(vals) > 1:
+            self.tight_cluster(st)
         neg = w[0] < 0
         self.counts["mean_negative_centre"] = self.counts.get("mean_negative_centre", 0) + (1 if neg else 0)
         self.ctx.case(("mean", tuple(vals), tuple(w)), nontrivial=len(vals) > 1,
                       sample={"mean_ticks": vals, "weights": w, "spec": [st["kind"], st["m"]]} if len(self.seen) % 4001 == 0 else None)
+
+
+    def tight_cluster(self, st: dict):
+        """The same posed list with its offsets shrunk from ticks to MICRO radians: a cluster that straddles
+        the seam when the centre is tick 0 or 12, (a) with the spec's weights, (b) with weights of huge
+        cancellation (w0 - 2M, w1 + M, ..: the 2-norm-normalised resultant is ~1e-9, like sigma-point weights
+        of alpha <= 1e-4).  The circular mean is well defined whenever the resultant is not zero; its
+        direction is computed in the frame rotated to the centre, where nothing cancels:
+        C = sum w - sum w 2 sin^2(d/2), S = sum w sin d with d = exact deviation of each actual float value."""
+        m = self.m
+        c, offs, ks, ss, w = st["c"], st["off"], st["k"], st["s"], st["w"]
+        cf = A.tick_value(c)
+        fc = self._fr(cf)
+        n = len(w)
+        for scheme, big in (("tight-cluster", 0.0), ("cancelling-weights", 1.0e8)):
+            ww = [float(x) for x in w]
+            if big:
+                ww = [ww[0] - (n - 1) * big] + [x + big for x in ww[1:]]
+            ang = np.array([A.represent(cf + MICRO * o, k, s) for o, k, s in zip(offs, ks, ss)])
+            d = [float(A.exact_wrapneg(Fraction(float(a)) - fc)) for a in ang]
+            cc = math.fsum(ww) - math.fsum(x * 2.0 * math.sin(0.5 * di) ** 2 for x, di in zip(ww, d))
+            sn = math.fsum(x * math.sin(di) for x, di in zip(ww, d))
+            absw = math.fsum(abs(x) for x in ww)
+            r = math.hypot(cc, sn)
+            if r < 1.0e3 * EPS * absw:
+                self.counts["tight_skipped_zero_resultant"] = self.counts.get("tight_skipped_zero_resultant", 0) + 1
+                continue          # resultant below rounding noise relative to sum|w|: the mean is undefined
+            expected = cf + math.atan2(sn, cc)
+            turns = 1 + max(abs(k) for k in ks)
+            tol = TOL + 64.0 * EPS * A.TWOPI * turns * absw / r
+            wf = np.array(ww)
+            for low, high in ((0.0, A.TWOPI), (-A.PI, A.PI)):
+                inp = {"centre_tick": c, "offsets_micro": offs, "turns": ks, "branch": ss, "weights": ww, "spec_weights": w, "low": low,
+                       "high": high, "values": ang.tolist(), "expected": expected, "tolerance": tol}
+                got = self.call("angularMean", inp, ang, weights=wf, low=low, high=high)
+                if got is None:
+                    continue
+                got = float(got)
+                inp["got"] = got
+                if not (low - TOL <= got <= high + TOL):
+                    self.ctx.violation(f"angularMean-out-of-range-{scheme}", f"angularMean returned {got!r} outside [{low}, {high})", inp)
+                elif not A.circ_dist(got, expected) <= tol:
+                    self.ctx.violation(f"angularMean-value-{scheme}",
+                                       f"angularMean returned {got!r} for a cluster within {MICRO * 12:.0e} rad of tick {c}; the "
+                                       f"resultant (length {r:.3g}, sum|w| {absw:.3g}) points at {expected!r}", inp)
+            self.counts[f"mean_{scheme}"] = self.counts.get(f"mean_{scheme}", 0) + 1
+            self.n += 1
 
 
 # ------------------------------------------------------------------------------------------------
@@ -262,8 +347,7 @@ def _scaled_err(u: dict, b: dict, perm_idx) -> dict:
     sd = np.sqrt(np.abs(np.diag(b["est_p"])))
     ep = np.abs(u["est_p"] - b["est_p"]) / np.outer(sd, sd)
     inn_b = b["innovation"][perm_idx]
-    comps = [c for _, _, c in u["comps"]]
-    sig = np.array([A.SIGMAS[c] for c in comps])
+    sig = np.array([A.SIGMAS[c] * A.sigma_scale(i) for i, _, c in u["comps"]])
     ei = np.abs(u["innovation"] - inn_b) / np.maximum(np.abs(inn_b), sig)
     return {"est_x": float((ex / scale_x).max()), "est_p": float(ep.max()), "innovation": float(ei.max())}
 
@@ -286,57 +370,85 @@ def _own_checks(out, u, st, rp, tuning):
 
 
 def replay_group(task):
+    """Never raises across the pool boundary: a failure of the driver itself is returned as text."""
+    try:
+        return _replay_group(task)
+    except Exception:  # noqa: BLE001
+        import traceback
+        return {"driver_error": traceback.format_exc()[-3000:]}
+
+
+def _replay_group(task):
     """One base (canonical stack) and all states of its behaviours: returns findings.
     An item is (stack, hist): hist = stacks the SAME filter instance has updated with before."""
     tuning, base_stack, items, count_base = task
     sc = _scene(tuning)
     out = {"violations": [], "cases": [], "worst": {}, "n": 0, "n_seq": 0, "w0": sc.w0, "cond": sc.weight_cond}
-    base = sc.update(base_stack)
+
+    def real(st, hist, rp):
+        """The REAL update; an exception of the real code on this legal call is a finding."""
+        try:
+            return sc.update(st, hist)
+        except A.RealCodeRaised as ex:
+            out["violations"].append((f"ukf-update-raises:{ex.cls}",
+                                      f"update() of a legal stack of {len(st)} simultaneous observations raised {ex.cls}: {ex.msg}",
+                                      dict(rp, traceback=ex.tb)))
+            return None
+
+    base = real(base_stack, (), {"tuning": tuning, "stack": base_stack, "hist": [], "classes": []})
     floor = 1.0e5 * EPS * sc.weight_cond
-    order = {(i, c): n for n, (i, c, _) in enumerate(base["comps"])}
+    order = {(i, c): n for n, (i, c, _) in enumerate(base["comps"])} if base else {}
     fresh_cache: dict = {}
 
-    def fresh(st):
+    def fresh(st, rp):
         k = json.dumps(st, sort_keys=True)
         if k not in fresh_cache:
-            fresh_cache[k] = base if st == base_stack else sc.update(st)
+            fresh_cache[k] = base if st == base_stack else real(st, (), rp)
             out["n"] += 1
         return fresh_cache[k]
 
     for st, hist in ([(base_stack, [])] if count_base else []) + [tuple(x) for x in items]:
-        u = fresh(st)
         cls = _classes(st)
         rp = {"tuning": tuning, "stack": st, "hist": hist, "classes": cls}
-        if hist:
-            # ---- the same instance after earlier updates must equal a fresh instance (same prior, same stack)
-            v = sc.update(st, hist)
-            out["n"] += 1 + len(hist)
-            out["n_seq"] += 1
-            out["cases"].append((json.dumps([tuning, hist, st], sort_keys=True), True))
-            _own_checks(out, v, st, rp, tuning)
-            err = _scaled_err(v, u, list(range(len(u["comps"]))))
+        u = fresh(st, rp)
+        try:
+            if hist:
+                # ---- the same instance after earlier updates must equal a fresh instance (same prior, same stack)
+                v = real(st, hist, rp)
+                out["n"] += 1 + len(hist)
+                out["n_seq"] += 1
+                out["cases"].append((json.dumps([tuning, hist, st], sort_keys=True), True))
+                if v is None or u is None:
+                    continue
+                _own_checks(out, v, st, rp, tuning)
+                err = _scaled_err(v, u, list(range(len(u["comps"]))))
+                for q, e in err.items():
+                    k = ("history", q)
+                    out["worst"][k] = max(out["worst"].get(k, 0.0), e)
+                    if not e <= 1e-12:
+                        out["violations"].append((f"ukf-{q}-depends-on-earlier-update",
+                                                  f"{q} after update(s) with other stacks on the same filter instance differs from a "
+                                                  f"fresh instance fed the same prior and stack by {e:.3e} (scaled)", dict(rp, error=e)))
+                continue
+            out["cases"].append((json.dumps([tuning, st], sort_keys=True), bool(cls)))
+            if u is None:
+                continue
+            _own_checks(out, u, st, rp, tuning)
+            if st == base_stack or base is None:
+                continue
+            idx = [order[(i, c)] for i, c, _ in u["comps"]]
+            err = _scaled_err(u, base, idx)
+            tol = (TOL_PERM if "permute" in cls else TOL) + floor
             for q, e in err.items():
-                k = ("history", q)
+                k = ("+".join(cls), q)
                 out["worst"][k] = max(out["worst"].get(k, 0.0), e)
-                if not e <= 1e-12:
-                    out["violations"].append((f"ukf-{q}-depends-on-earlier-update",
-                                              f"{q} after update(s) with other stacks on the same filter instance differs from a fresh "
-                                              f"instance fed the same prior and stack by {e:.3e} (scaled)", dict(rp, error=e)))
-            continue
-        out["cases"].append((json.dumps([tuning, st], sort_keys=True), bool(cls)))
-        _own_checks(out, u, st, rp, tuning)
-        if st == base_stack:
-            continue
-        idx = [order[(i, c)] for i, c, _ in u["comps"]]
-        err = _scaled_err(u, base, idx)
-        tol = (TOL_PERM if "permute" in cls else TOL) + floor
-        for q, e in err.items():
-            k = ("+".join(cls), q)
-            out["worst"][k] = max(out["worst"].get(k, 0.0), e)
-            if not e <= tol:
-                out["violations"].append((f"ukf-{q}-changed-by-{'+'.join(cls)}",
-                                          f"{q} differs from the canonical stack's by {e:.3e} (scaled), tolerance {tol:.1e}",
-                                          dict(rp, error=e, tolerance=tol)))
+                if not e <= tol:
+                    out["violations"].append((f"ukf-{q}-changed-by-{'+'.join(cls)}",
+                                              f"{q} differs from the canonical stack's by {e:.3e} (scaled), tolerance {tol:.1e}",
+                                              dict(rp, error=e, tolerance=tol)))
+        except Exception as ex:  # noqa: BLE001  evaluation of the real filter's outputs
+            out["violations"].append((f"ukf-output-unusable:{type(ex).__name__}",
+                                      f"the outputs of update() could not be evaluated: {type(ex).__name__}: {ex}", rp))
     return out
 
 
@@ -393,7 +505,7 @@ def _run(ctx: Ctx, pool):
     phase = {}
     ctx.rule = ("helpers: every (a, b) on Z_24 x turn offsets x both branches (values deduplicated), x 3 common sub-tick "
                 "phases; non-trivial = a != b.  mean: every posed weighted list x centre x group action, non-trivial = more "
-                "than one member.  filter: every 'updated' state of ObsGroup.tla (tuning x kinds x seam placement x "
+                "than one member; each also as a tight cluster (1e-9 rad per offset unit) with the posed and with cancelling weights.  filter: every 'updated' state of ObsGroup.tla (tuning x kinds x seam placement x "
                 "sub-tick pattern x group word incl. all 24 orders), non-trivial = representation or order differs from "
                 "the canonical stack; distinct by (tuning, stack); sequences: one filter instance updated with hist then stack, "
                 "compared with a fresh instance (distinct by (tuning, hist, stack))")
@@ -405,9 +517,15 @@ def _run(ctx: Ctx, pool):
         "(the documented range decides); a result whose exact value is within 1e-9 of a seam without being on it, or whose "
         "intermediates round, is accepted on either side",
         "angularMean: tolerance 1e-9 * max(1, sum|w| / |resultant|); exact mean = tick, or open sector between two ticks",
+        "tight clusters: the mean is undefined only for a zero resultant; skipped only when the unnormalised resultant is below "
+        "1e3 * eps * sum|w|; expected direction = centre + atan2(sum w sin d, sum w - sum w 2 sin^2(d/2)) with d the exact deviation "
+        "of each float value from the centre (math.fsum); tolerance 1e-9 + 64 * eps * 2pi * (1 + max turns) * sum|w| / |resultant|",
+        "a real helper or update() raising on a posed (legal) input is a violation of the property, not a machinery error; "
+        "sensors of one type carry different noise covariances (sigma scaled 1.0 .. 2.5 by sensor)",
         "filter: scaled errors (est_x per position/velocity norm, est_p per sqrt(Pii Pjj), innovation per max(|value|, sigma)); "
         "tolerance 1e-9 (1e-7 when the order changes) + 1e5 * eps * sum|W| / |sum W| of the sigma-point weights "
-        "(default tuning: centre weight -2e6, floor 8.9e-5; alpha = 1: floor 7e-11)",
+        "(default tuning: centre weight -2e6, floor 8.9e-5; alpha = 1: floor 7e-11; alpha = 1e-4: 8.9e-3; alpha = 1e-5: 0.89, "
+        "measured noise there 9e-3)",
         "a filter instance that has already processed other stacks must reproduce a fresh instance's result for the same "
         "(prior, stack) to 1e-12 scaled (the computations are identical); successive update() calls share the prior of one predict()",
         "innovations of exactly half a turn are not posed at filter level (the posterior is discontinuous there)",
@@ -522,6 +640,8 @@ def _run(ctx: Ctx, pool):
     n_seq = 0
     tun = {}
     for t, out in zip(tasks, async_res.get(timeout=3000)):
+        if "driver_error" in out:
+            raise tlc.MachineryError("filter replay worker failed (driver, not the implementation):\n" + out["driver_error"])
         n_upd += out["n"]
         n_seq += out["n_seq"]
         tun[t[0]] = {"centre_weight": out["w0"], "weight_condition": out["cond"]}
@@ -552,6 +672,8 @@ def replay(ctx: Ctx, rp: dict):
     r = rp["replay"]
     if "stack" in r:
         out = replay_group((r["tuning"], A.canonical(r["stack"]), [(r["stack"], r.get("hist") or [])], True))
+        if "driver_error" in out:
+            raise tlc.MachineryError(out["driver_error"])
         for key, nontrivial in out["cases"]:
             ctx.case(key, nontrivial=True)
         for sig, what, rpl in out["violations"]:
@@ -569,6 +691,9 @@ def replay(ctx: Ctx, rp: dict):
         wn = ra % A.N - (A.N if ra % A.N > half else 0)
         for alg in ("scalar", "vec"):
             hr.residual({"alg": alg, "ra": ra, "rb": rb, "w1": ra % A.N, "wn": wn, "res": res, "resba": resba})
+    elif "offsets_micro" in r:
+        hr.tight_cluster({"c": r["centre_tick"], "off": r["offsets_micro"], "k": r["turns"], "s": r["branch"],
+                          "w": r["spec_weights"]})
     elif "spec_mean" in r:
         hr.mean({"vals": r["ticks"], "w": r["weights"], "kind": r["spec_mean"][0], "m": r["spec_mean"][1]})
     else:
